@@ -1409,6 +1409,7 @@ func checkDurationUnits(r *Report, p *Prog) {
 
 // checkNormaliserIdentity: the endpoint-location normaliser returns its argument unchanged, or the empty string, on success.
 func checkNormaliserIdentity(r *Report, p *Prog, nf *ssa.Function, rule string) {
+	_, locIdx := endpointParamRoles(p, nf)
 	a := NewAnalysis(p)
 	fc := a.Ctx(nf)
 	for _, ret := range fc.Returns() {
@@ -1418,14 +1419,14 @@ func checkNormaliserIdentity(r *Report, p *Prog, nf *ssa.Function, rule string) 
 		okR := true
 		var got []string
 		for _, lf := range rootLeaves(Resolve(ret.Results[0]), map[ssa.Value]bool{}) {
-			if lf == ssa.Value(nf.Params[1]) || isEmptyStringConst(lf) {
+			if lf == ssa.Value(nf.Params[locIdx]) || isEmptyStringConst(lf) {
 				continue
 			}
 			if al, ok := lf.(*ssa.Alloc); ok {
 				// a spilled parameter
 				all := true
 				for _, ref := range *al.Referrers() {
-					if st, ok := ref.(*ssa.Store); ok && st.Addr == ssa.Value(al) && st.Val != ssa.Value(nf.Params[1]) && !isEmptyStringConst(st.Val) {
+					if st, ok := ref.(*ssa.Store); ok && st.Addr == ssa.Value(al) && st.Val != ssa.Value(nf.Params[locIdx]) && !isEmptyStringConst(st.Val) {
 						all = false
 					}
 				}
@@ -1482,6 +1483,7 @@ func checkFieldLocal(r *Report, p *Prog) {
 	}
 	for _, nf := range sortedFns(p, norm) {
 		r.Fn(p.FnName(nf))
+		bindIdx, locIdx := endpointParamRoles(p, nf)
 		checkNormaliserIdentity(r, p, nf, rule)
 		// every binding the package itself names keeps its location: the normaliser compares its binding parameter with
 		// each exported binding constant (anything it does not recognise is blanked)
@@ -1492,14 +1494,14 @@ func checkFieldLocal(r *Report, p *Prog) {
 			seenB := map[string]bool{}
 			var prefixes []string
 			for _, ai := range tb.atomsIn() {
-				if ai.Kind == "call" && len(ai.Args) == 3 && ai.Args[0] == "strings.HasPrefix" && ai.Args[1] == "p:"+nf.Params[0].Name() && strings.HasPrefix(ai.Args[2], `c:"`) {
+				if ai.Kind == "call" && len(ai.Args) == 3 && ai.Args[0] == "strings.HasPrefix" && ai.Args[1] == "p:"+nf.Params[bindIdx].Name() && strings.HasPrefix(ai.Args[2], `c:"`) {
 					prefixes = append(prefixes, strings.Trim(strings.TrimPrefix(ai.Args[2], "c:"), `"`))
 				}
 				if ai.Kind != "eq" {
 					continue
 				}
 				for i, ar := range ai.Args {
-					if ar == "p:"+nf.Params[0].Name() && strings.HasPrefix(ai.Args[1-i], `c:"`) {
+					if ar == "p:"+nf.Params[bindIdx].Name() && strings.HasPrefix(ai.Args[1-i], `c:"`) {
 						seenB[strings.Trim(strings.TrimPrefix(ai.Args[1-i], "c:"), `"`)] = true
 					}
 				}
@@ -1532,7 +1534,7 @@ func checkFieldLocal(r *Report, p *Prog) {
 			r.Fn(p.FnName(caller))
 			ac := NewAnalysis(p)
 			cc := ac.Ctx(caller)
-			src := strings.TrimSuffix(strings.TrimSuffix(cc.AP(c.Call.Args[1]), ".*"), "*")
+			src := strings.TrimSuffix(strings.TrimSuffix(cc.AP(c.Call.Args[locIdx]), ".*"), "*")
 			var dsts []string
 			for _, ref := range *c.Referrers() {
 				ex, ok := ref.(*ssa.Extract)
